@@ -160,12 +160,15 @@ DEPS = [[], [0], [1], [0, 1]]          # A -> B -> C ;  D <- (A, B)
 OUT = ["a", "b", "c", "d"]
 
 
-def build_world(be):
+LABELS = {"topo": NAMES, "rev": ["R", "M", "C", "D"]}      # "rev": the middle target sorts before the root it depends on
+
+
+def build_world(be, names=NAMES):
     w = World(be)
-    w.target("A", ["src"], ["a"])
-    w.target("B", ["a"], ["b"])
-    w.target("C", ["b"], ["c"])
-    w.target("D", ["a", "b"], ["d"])
+    w.target(names[0], ["src"], ["a"])
+    w.target(names[1], ["a"], ["b"])
+    w.target(names[2], ["b"], ["c"])
+    w.target(names[3], ["a", "b"], ["d"])
     w.file("src", 5)
     return w
 
@@ -178,6 +181,9 @@ def _q7d(sa, sb, fA, fB, fC, fD, now):
     contract allows (start >= finish of every parsed prerequisite, finish times symbolic), it
     starts after that job finished."""
     be, first = q.SHARD["be"], q.SHARD["first"]
+    names = LABELS[q.SHARD.get("lab", "topo")]
+    nA, nB = names[0], names[1]
+    first = [names[["A", "B", "C", "D"].index(x)] for x in first]
     if not (q.in_range(sa, 5) and q.in_range(sb, 5)):
         return q.SKIP
     fin = [fA, fB, fC, fD]
@@ -187,55 +193,55 @@ def _q7d(sa, sb, fA, fB, fC, fD, now):
     if not (now >= 10):
         return q.SKIP
     with q.notrace():                 # concrete prefix: nothing symbolic exists in the world yet
-        w = build_world(be)
+        w = build_world(be, names)
         w.install()
     try:
         w.concretely(w.run, first)
         jobs1 = abst.jobs_by_cmd(w)
         ids1 = {j["name"]: j["id"] for j in jobs1}
         states = ["pending", "running", "done", "failed", "cancelled"]
-        abstract = {"A": "none", "B": "none", "C": "none", "D": "none"}
-        for nm, s in (("A", sa), ("B", sb)):
+        abstract = {nm: "none" for nm in names}
+        for nm, s in ((nA, sa), (nB, sb)):
             if nm in ids1:
                 abstract[nm] = q.pick(states, s)
             elif s != 0:
                 return q.SKIP
         # a job cannot have run before its parsed prerequisite succeeded
-        if abstract["B"] in ("running", "done", "failed") and abstract["A"] != "done" and "A" in [nm for nm in ids1]:
+        if abstract[nB] in ("running", "done", "failed") and abstract[nA] != "done" and nA in [nm for nm in ids1]:
             return q.SKIP
         for nm in ids1:
-            if nm not in ("A", "B"):
+            if nm not in (nA, nB):
                 abstract[nm] = "pending"          # other jobs of invocation 1 simply stay queued
             abst.set_state(w, ids1[nm], abstract[nm])
             if abstract[nm] == "done":
-                w.file(OUT[NAMES.index(nm)], fin[NAMES.index(nm)])
+                w.file(OUT[names.index(nm)], fin[names.index(nm)])
         # finish times respect the contract for invocation-1 jobs
-        if abstract["A"] == "done" and abstract["B"] == "done" and not (fB >= fA):
+        if abstract[nA] == "done" and abstract[nB] == "done" and not (fB >= fA):
             return q.SKIP
         n1 = len(jobs1)
         w.run()
         jobs2 = abst.jobs_by_cmd(w)[n1:]
-        bstate = [abst.EXPECT[be][abstract[nm]] for nm in NAMES]
+        bstate = [abst.EXPECT[be][abstract[nm]] for nm in names]
         stale = []
-        for i, nm in enumerate(NAMES):
+        for i, nm in enumerate(names):
             stale.append(abstract[nm] != "done")     # outputs exist only for finished jobs; mtimes ordered by the contract
         cone, st, pre, sub = P.plan(4, DEPS, stale, bstate, [2, 3])
         latest = dict(ids1)
         seen = []
         for j in jobs2:
-            i = NAMES.index(j["name"])
+            i = names.index(j["name"])
             if i not in sub:
                 return "second run submitted %s (status %s)" % (j["name"], st[i])
-            required = [latest[NAMES[d]] for d in pre[i]]
+            required = [latest[names[d]] for d in pre[i]]
             # timing consequence, solver-decided: earliest legal start = max finish of parsed prerequisites
             start = now
             for p in j["deps"]:
                 for nm2, jid in latest.items():
-                    if str(jid) == str(p) and fin[NAMES.index(nm2)] > start:
-                        start = fin[NAMES.index(nm2)]
+                    if str(jid) == str(p) and fin[names.index(nm2)] > start:
+                        start = fin[names.index(nm2)]
             for d in pre[i]:
                 if not (start >= fin[d]):
-                    return "job of %s may start at %s before the job of its dependency %s finishes" % (j["name"], "t", NAMES[d])
+                    return "job of %s may start at %s before the job of its dependency %s finishes" % (j["name"], "t", names[d])
             if sorted(map(str, j["deps"])) != sorted(map(str, required)):
                 return "job of %s told to wait for %s, required %s" % (j["name"], j["deps"], required)
             if required and j["kind"] != abst.NEVER_RELEASE_KIND[be]:
@@ -243,7 +249,7 @@ def _q7d(sa, sb, fA, fB, fC, fD, now):
             latest[j["name"]] = j["id"]
             seen.append(i)
         if sorted(seen) != sorted(sub):
-            return "second run submitted %s, expected %s" % ([NAMES[i] for i in seen], [NAMES[i] for i in sub])
+            return "second run submitted %s, expected %s" % ([names[i] for i in seen], [names[i] for i in sub])
         return ""
     finally:
         w.uninstall()
@@ -264,10 +270,10 @@ QUERIES = [
               "Slurm with and without the multi-cluster output format '<id>;<cluster>'" % IDS},
     {"name": "Q7c", "fn": q7c, "shards": [{"be": b} for b in BES], "timeout": {"quick": 400, "thorough": 900},
      "bound": "two invocations, 3 targets, every dependency subset; A pending or running at the second invocation"},
-    {"name": "Q7d", "fn": q7d, "shards": {"quick": [{"be": b, "first": f} for b in BES for f in (["A"], ["B"])],
-                                          "thorough": [{"be": b, "first": f} for b in BES for f in (["A"], ["B"], ["C"], [])]},
+    {"name": "Q7d", "fn": q7d, "shards": {"quick": [{"be": b, "first": f} for b in BES for f in (["A"], ["B"])] + [{"be": "slurm", "first": f, "lab": "rev"} for f in (["A"], [])],
+                                          "thorough": [{"be": b, "first": f, "lab": lab} for b in BES for f in (["A"], ["B"], ["C"], []) for lab in ("topo", "rev")]},
      "timeout": {"quick": 600, "thorough": 1800},
-     "bound": "4 targets A->B->C, D<-(A,B); invocation 1 = run of a named target, then each accepted job in one of 5 abstract states (symbolic), finish times symbolic ints; invocation 2 = run of everything"},
+     "bound": "4 targets A->B->C, D<-(A,B) (a shortcut edge; in the rev shards the names are such that the middle target sorts before the root); invocation 1 = run of a named target, then each accepted job in one of 5 abstract states (symbolic), finish times symbolic ints; invocation 2 = run of everything"},
 ]
 
 
